@@ -9,6 +9,7 @@ import (
 	"github.com/PurpleSec/logx"
 	"github.com/iDigitalFlame/xmt/c2/cfg"
 	"github.com/iDigitalFlame/xmt/c2/cout"
+	"github.com/iDigitalFlame/xmt/data"
 	"github.com/iDigitalFlame/xmt/util"
 )
 
@@ -16,7 +17,7 @@ import (
 // -overlay`.  The check also overlays DERIVED copies of session.go and c2.go (the current /repo
 // files) in which exactly these call patterns are textually redirected to the hooks below:
 //
-//	session.go, c2.go:  time.Now().After(s.kill)   ->  verifC19Now(s).After(s.kill)
+//	session.go, c2.go:  time.Now()  (every one that is not `time.Now().Add(` = a socket deadline)  ->  verifC19Clock()
 //	session.go:         util.FastRandN(            ->  verifC19RandN(
 //	session.go:         util.Rand.Int63n(          ->  verifC19Int63n(
 //	session.go:         s.tick.Reset(w)            ->  verifC19Reset(s, w)
@@ -27,7 +28,7 @@ import (
 // VerifC19Hooks is the set of injected sources.  A nil field means "the real thing".
 type VerifC19Hooks struct {
 	// Now is the clock of the kill-date checks in (*Session).wait and connectContextInner.
-	Now func(s *Session) time.Time
+	Now func() time.Time
 	// RandN replaces util.FastRandN (jitter gate: n = 100, sign: n = 2).
 	RandN func(n int) uint32
 	// Int63n replaces util.Rand.Int63n (jitter amount in ms).
@@ -45,9 +46,9 @@ var verifC19H *VerifC19Hooks
 // VerifC19Set installs (nil removes) the hooks.
 func VerifC19Set(h *VerifC19Hooks) { verifC19H = h }
 
-func verifC19Now(s *Session) time.Time {
+func verifC19Clock() time.Time {
 	if h := verifC19H; h != nil && h.Now != nil {
-		return h.Now(s)
+		return h.Now()
 	}
 	return time.Now()
 }
@@ -139,4 +140,23 @@ func VerifC19SetSwap(s *Session, p cfg.Profile) { s.swap = p }
 // VerifC19Settings reads the timing values the Session runs with.
 func VerifC19Settings(s *Session) (sleep time.Duration, jitter uint8, kill time.Time, work *cfg.WorkHours) {
 	return s.sleep, s.jitter, s.kill, s.work
+}
+
+// VerifC19SyncInfo returns the `infoSync` block a parent Session with these timing values hands to
+// the process it spawns (the real writeDeviceInfo).
+func VerifC19SyncInfo(sleep time.Duration, jitter uint8, kill time.Time, work *cfg.WorkHours) (*data.Chunk, error) {
+	var (
+		p = &Session{sleep: sleep, jitter: jitter, kill: kill, work: work}
+		b data.Chunk
+	)
+	if err := p.writeDeviceInfo(infoSync, &b); err != nil {
+		return nil, err
+	}
+	return &b, nil
+}
+
+// VerifC19ConnectInner is connectContextInner: with r == nil what ConnectContext does, with r an
+// infoSync block what LoadContext does for a spawned client (job id 0).
+func VerifC19ConnectInner(x context.Context, r data.Reader, l logx.Log, p cfg.Profile) (*Session, error) {
+	return connectContextInner(x, r, l, p)
 }
